@@ -142,6 +142,13 @@ def r4_push(ctx, facts):
                     bad.append(t.get('ln'))
             else:
                 bad.append(t.get('ln'))
+        # every call of push must record exactly one section: each path to the return passes a store
+        store_blocks = {bi for bi, t in f.calls() if (t['func'].get('name') == 'push' and (t['func'].get('path') or '').startswith('std::vec::Vec'))
+                        or t['func'].get('name') == 'incr_zero_count'}
+        every_path = bool(store_blocks) and f.cfg.must_pass_through(0, store_blocks)
+        ctx.require(every_path, 'C10-R4', 'push-total:' + cname, 'StrainsVec::push [%s] records one section on every path (%d store site(s))' % (cname, len(store_blocks)), f.where(),
+                    bad='StrainsVec::push [%s] can return without recording the section: the number of strain sections (and everything zipped by index, e.g. taiko\'s '
+                        'combined peaks) then differs between feature configurations' % cname)
         ctx.require(not bad and nval >= 1, 'C10-R4', 'push:' + cname,
                     'StrainsVec::push [%s] stores `value` only under the positivity test (value.to_bits() > 0 && is_sign_positive, or value > 0.0); everything else is a zero' % cname,
                     f.where(), bad='StrainsVec::push [%s] stores its argument without the positivity test the sibling implementation applies (line(s) %s): a negative strain '
